@@ -24,6 +24,7 @@ import (
 
 	"github.com/projectcalico/calico/felix/calc"
 	"github.com/projectcalico/calico/felix/config"
+	"github.com/projectcalico/calico/felix/proto"
 	"github.com/projectcalico/calico/lib/std/uniquelabels"
 	"github.com/projectcalico/calico/libcalico-go/lib/backend/api"
 	"github.com/projectcalico/calico/libcalico-go/lib/backend/model"
@@ -87,14 +88,51 @@ type pipe struct {
 	rec  *recorder
 	sink *sink
 	vf   *calc.ValidationFilter
+	seq  *calc.EventSequencer
+	dp   map[string]string // what the dataplane holds: profile -> content of the rules it was last sent
 }
 
+// protoProfileContent classifies the CONTENT of the rules in an ActiveProfileUpdate: `D` = deny
+// everything in both directions (what the stand-in must be), `R:rN` = the harness's real rules rN.
+func protoProfileContent(p *proto.Profile) string {
+	denyOnly := func(rs []*proto.Rule) bool {
+		return len(rs) == 1 && strings.EqualFold(rs[0].Action, "deny") && rs[0].Protocol == nil &&
+			len(rs[0].SrcNet) == 0 && len(rs[0].DstNet) == 0 && len(rs[0].SrcPorts) == 0 && len(rs[0].DstPorts) == 0 &&
+			len(rs[0].SrcIpSetIds) == 0 && len(rs[0].DstIpSetIds) == 0
+	}
+	if denyOnly(p.InboundRules) && denyOnly(p.OutboundRules) {
+		return "D"
+	}
+	if len(p.InboundRules) >= 1 && len(p.InboundRules[0].DstPorts) == 1 {
+		return fmt.Sprintf("R:r%d", p.InboundRules[0].DstPorts[0].First-1000)
+	}
+	return "R:?"
+}
+
+// newPipe: ValidationFilter -> ARC -> real RuleScanner -> real EventSequencer -> "dataplane" (dp).
+// The recorder sits on the ARC's second output (PolicyLookupCache gets exactly the same calls).
 func newPipe() *pipe {
 	rec := &recorder{view: map[string]string{}}
 	arc := calc.NewActiveRulesCalculator()
-	arc.RuleScanner = rec
-	sk := &sink{arc: arc}
-	return &pipe{rec: rec, sink: sk, vf: calc.NewValidationFilter(sk, config.New())}
+	p := &pipe{rec: rec, dp: map[string]string{}}
+	rs := calc.NewRuleScanner()
+	rs.OnIPSetActive = func(*calc.IPSetData) {}
+	rs.OnIPSetInactive = func(*calc.IPSetData) {}
+	p.seq = calc.NewEventSequencer(nil)
+	p.seq.Callback = func(m any) {
+		switch m := m.(type) {
+		case *proto.ActiveProfileUpdate:
+			p.dp[m.Id.Name] = protoProfileContent(m.Profile)
+		case *proto.ActiveProfileRemove:
+			delete(p.dp, m.Id.Name)
+		}
+	}
+	rs.RulesUpdateCallbacks = p.seq
+	arc.RuleScanner = rs
+	arc.PolicyLookupCache = rec
+	p.sink = &sink{arc: arc}
+	p.vf = calc.NewValidationFilter(p.sink, config.New())
+	return p
 }
 
 type state struct {
@@ -247,6 +285,36 @@ func exec(h *rt.H, s *state, op string) string {
 	case "insync":
 		s.main.vf.OnStatusUpdated(api.InSync)
 		s.shadow.vf.OnStatusUpdated(api.InSync)
+	case "pflush":
+		// end of a flush window: the EventSequencer sends the coalesced updates to the dataplane
+		s.main.seq.Flush()
+		s.shadow.seq.Flush()
+		s.main.rec.endOp()
+		s.shadow.rec.endOp()
+		want := map[string]string{}
+		for _, ids := range s.eps {
+			for _, p := range ids {
+				if rid, ok := s.profs[p]; ok {
+					want[p] = "R:" + rid
+				} else {
+					want[p] = "D"
+				}
+			}
+		}
+		if !reflect.DeepEqual(want, s.main.dp) {
+			h.OracleFail("dataplane-profile-content-mismatch",
+				"after a flush the rules the dataplane holds for a profile are not those the current datastore state requires (real rules if the profile exists and is valid, deny-all otherwise; nothing for unreferenced profiles)",
+				map[string]any{"ops": s.history, "want": want, "got": s.main.dp})
+		}
+		if !reflect.DeepEqual(s.main.dp, s.shadow.dp) {
+			h.OracleFail("invalid-not-absent-dataplane", "an invalid value left the dataplane in a different state than a deletion would",
+				map[string]any{"ops": s.history, "got": s.main.dp, "with_deletes": s.shadow.dp})
+		}
+		var v []string
+		for p, r := range s.main.dp {
+			v = append(v, p+"="+r)
+		}
+		return "P=" + showSorted(v)
 	case "ep", "prof":
 		var key model.Key
 		var val any
@@ -379,13 +447,33 @@ func genOp(h *rt.H) string {
 		}
 		rid := fmt.Sprintf("r%d", 1+h.Intn(3))
 		return fmt.Sprintf("prof %s %s %s %s", p, rid, bit(validatorsAccept(mkRules(rid, variant))), variant)
-	default:
+	case r < 99:
 		return "insync"
+	default:
+		return "pflush"
 	}
 }
 
 func genCase(h *rt.H) []string {
 	ops := []string{"new"}
+	if h.Chance(0.3) {
+		// one flush window: profile P active and sent with real (allow) rules; the last endpoint naming
+		// it goes away; P is deleted / replaced by an invalid version; another endpoint naming it
+		// appears; flush.  The dataplane must end up with the deny stand-in for P.
+		p := rt.Pick(h, profIDs)
+		e1, e2 := "w1", rt.Pick(h, []string{"w2", "h1"})
+		gone := fmt.Sprintf("ep %s DEL 1 -", e1)
+		if h.Bool() {
+			gone = fmt.Sprintf("ep %s - 1 ok", e1)
+		}
+		kill := fmt.Sprintf("prof %s DEL 1 -", p)
+		if h.Bool() {
+			v := rt.Pick(h, []string{"badsel", "badicmp", "badipver"})
+			kill = fmt.Sprintf("prof %s r2 %s %s", p, bit(validatorsAccept(mkRules("r2", v))), v)
+		}
+		ops = append(ops, fmt.Sprintf("prof %s r1 1 ok", p), fmt.Sprintf("ep %s %s 1 ok", e1, p), "pflush",
+			gone, kill, fmt.Sprintf("ep %s %s 1 ok", e2, p), "pflush")
+	}
 	n := 5 + h.Intn(30)
 	for i := 0; i < n; i++ {
 		if i > 2 && h.Chance(0.06) {
@@ -393,7 +481,11 @@ func genCase(h *rt.H) []string {
 			continue
 		}
 		ops = append(ops, genOp(h))
+		if h.Chance(0.12) {
+			ops = append(ops, "pflush")
+		}
 	}
+	ops = append(ops, "pflush")
 	return ops
 }
 
